@@ -33,6 +33,7 @@ def detect_and_initialize(ex, name, args):
 
 
 STATS = {}
+USE_CONE_MERGE = False   # substitution + rebuild is slower than the lockstep walk on heavily fragmented (ARX) terms
 _CONGR_CACHE = {}
 
 FEATURE_BITS = {  # std_detect x86 Feature enum bit positions as observed in the IR of this toolchain (validated in setup)
@@ -67,11 +68,38 @@ def solve_neq(pairs, pc=(), timeout_s=120, assumptions=None, congruence=True):
         return 'identical', None, 0.0
     if congruence and not assumptions:
         from . import congr
-        ck = tuple(diff)
+        # the CPU-feature bits of the path condition only select the arm; equalities are proved without them, so one
+        # proof serves every arm that produced the same terms
+        pc_core = tuple((c, v) for c, v in pc if T.support([c])[0] != {'cpu'})
+        ck = (tuple(diff), pc_core)
         if ck in _CONGR_CACHE:
             STATS['congruence_cached'] = STATS.get('congruence_cached', 0) + 1
             return 'unsat', None, time.time() - t0
-        ok, residual = congr.reduce_pairs(diff)
+        # sat side first: the strengthened query "inputs = corner / seed-derived constants" (any model of it is a model
+        # of the original query); a differing crypto core differs on almost every input, a boundary slip on a corner
+        model = congr.simulate_difference(diff, pc)
+        if model is not None:
+            STATS['sat_by_simulation'] = STATS.get('sat_by_simulation', 0) + 1
+            return 'sat', model, time.time() - t0
+        # small-cone merging + substitution: makes structurally parallel DAGs syntactically identical
+        def _solve(ps, pcx):
+            return solve_neq(ps, pcx, 30, None, False)[0]
+        newpairs, nmerged, nq = diff, 0, 0
+        if USE_CONE_MERGE:
+            try:
+                newpairs, nmerged, nq = congr.merge_small_cones(diff, pc, solve=_solve)
+            except RecursionError:
+                newpairs, nmerged, nq = diff, 0, 0
+        if nmerged:
+            STATS['cone_merges'] = STATS.get('cone_merges', 0) + nmerged
+            rest = [(g, e) for g, e in newpairs if g != e]
+            if not rest:
+                _CONGR_CACHE[ck] = True
+                return 'unsat', None, time.time() - t0
+            diff2 = rest
+        else:
+            diff2 = diff
+        ok, residual = congr.reduce_pairs(diff2, 0, pc)
         if ok:
             if not residual:
                 _CONGR_CACHE[ck] = True
@@ -80,12 +108,18 @@ def solve_neq(pairs, pc=(), timeout_s=120, assumptions=None, congruence=True):
             st, model, _ = solve_neq(residual, (), min(timeout_s, 60), None, False)
             if st in ('unsat', 'identical'):
                 _CONGR_CACHE[ck] = True
-            elif pc:
+            elif pc_core:
+                st, model, _ = solve_neq(residual, pc_core, min(timeout_s, 60), None, False)
+                if st in ('unsat', 'identical'):
+                    _CONGR_CACHE[ck] = True
+            if st not in ('unsat', 'identical') and len(pc_core) != len(pc):
                 st, model, _ = solve_neq(residual, pc, min(timeout_s, 60), None, False)
             if st in ('unsat', 'identical'):
                 STATS['congruence'] = STATS.get('congruence', 0) + 1
                 STATS['residuals'] = STATS.get('residuals', 0) + len(residual)
                 return 'unsat', None, time.time() - t0
+    if os.environ.get('VERIF_DEBUG') and congruence:
+        print('DEBUG full query: pairs=%d pc=%s' % (len(diff), [(T.show(c)[:60], v) for c, v in pc]), flush=True)
     s = z3.Solver()
     s.set('timeout', int(timeout_s * 1000))
     for a in pc_z3(pc):
@@ -217,6 +251,7 @@ class Run:
 
     def equal(self, name, pairs, pc=(), timeout_s=120, key=None):
         """obligation: under pc every got == exp. Returns Obligation (status identical/unsat/sat/unknown)"""
+        pairs = [(g, e) for g, e in pairs if T.width(g) or T.width(e)]
         ob = Obligation(name)
         ob.key = key or name
         ob.n_pairs = len(pairs)
@@ -255,6 +290,38 @@ class Run:
         with open(p, 'w') as f:
             json.dump(payload, f, indent=1, default=str)
         return p
+
+    # ------------------------------------------------------------------ parallel sub-runs
+    def export(self):
+        return {'obls': [(o.name, o.status, o.n_pairs, o.n_identical, o.solver_s, o.detail, o.key) for o in self.obls],
+                'violations': self.violations, 'known_hits': self.known_hits, 'inconclusive': self.inconclusive,
+                'functions': sorted(self.functions), 'builds': self.builds, 'samples': self.samples, 'canaries': self.canaries,
+                'exec_s': self.exec_s, 'extra': self.extra, 'stats': dict(STATS)}
+
+    def absorb(self, d):
+        for name, status, n_pairs, n_ident, solver_s, detail, key in d['obls']:
+            o = Obligation(name)
+            o.status, o.n_pairs, o.n_identical, o.solver_s, o.detail, o.key = status, n_pairs, n_ident, solver_s, detail, key
+            self.add(o)
+        for v in d['violations']:
+            if v[0] not in [x[0] for x in self.violations]:
+                self.violations.append(tuple(v))
+        for k in d['known_hits']:
+            if k[0] not in [x[0] for x in self.known_hits]:
+                self.known_hits.append(tuple(k))
+        self.inconclusive.extend(d['inconclusive'])
+        self.functions.update(d['functions'])
+        self.builds.update(d['builds'])
+        for smp in d['samples']:
+            if len(self.samples) < 8:
+                self.samples.append(smp)
+        self.canaries.extend(tuple(c) for c in d['canaries'])
+        self.exec_s += d['exec_s']
+        for k, v in d['extra'].items():
+            if isinstance(v, (int, float)) and isinstance(self.extra.get(k, 0), (int, float)):
+                self.extra[k] = self.extra.get(k, 0) + v
+            else:
+                self.extra.setdefault(k, v)
 
     # ------------------------------------------------------------------ finish
     def finish(self):
@@ -323,3 +390,40 @@ def load_known():
         return []
     with open(p) as f:
         return json.load(f).get('findings', [])
+
+
+def _worker(job):
+    fn, pid, tier, seed, task = job
+    import traceback
+    T.reset()
+    _CONGR_CACHE.clear()
+    sub = Run(pid, tier, seed)
+    try:
+        fn(sub, task)
+    except Exception as e:
+        from .ir import Unsupported
+        from .execu import Inconclusive
+        from .build import BuildError
+        if isinstance(e, BuildError):
+            sub.inconclusive.append('build error in task %r: %s\n%s' % (task, e, e.log[-1500:]))
+        else:
+            sub.inconclusive.append('%s in task %r: %s' % (type(e).__name__, task, str(e)[:500]))
+            if not isinstance(e, (Unsupported, Inconclusive)):
+                sub.inconclusive.append(traceback.format_exc()[-1500:])
+    return sub.export()
+
+
+def parallel(run, fn, tasks, nproc=None):
+    """run fn(subrun, task) for every task in worker processes and merge the results into run"""
+    import multiprocessing as mp
+    if nproc is None:
+        nproc = int(os.environ.get('VERIF_JOBS', '0') or 0) or min(14, os.cpu_count() or 1)
+    jobs = [(fn, run.pid, run.tier, run.seed, t) for t in tasks]
+    if nproc <= 1 or len(jobs) <= 1:
+        for j in jobs:
+            run.absorb(_worker(j))
+        return
+    ctx = mp.get_context('fork')
+    with ctx.Pool(min(nproc, len(jobs)), maxtasksperchild=8) as pool:
+        for d in pool.imap_unordered(_worker, jobs, chunksize=1):
+            run.absorb(d)
